@@ -149,6 +149,8 @@ def floordiv_axioms():
                   patterns=[z3.MultiPattern(FDIV(a, b), FDIV(a2, b))]),
         z3.ForAll([a, b], z3.Implies(z3.And(b > 0, a >= 0), FDIV(a, b) >= 0), patterns=[FDIV(a, b)]),
         z3.ForAll([a, b], z3.Implies(z3.And(b > 0, a >= 0, a < b), FDIV(a, b) == 0), patterns=[FDIV(a, b)]),
+        z3.ForAll([a, a2, b], z3.Implies(z3.And(b > 0, a + b <= a2), FDIV(a, b) < FDIV(a2, b)),
+                  patterns=[z3.MultiPattern(FDIV(a, b), FDIV(a2, b))]),
     ]
 
 
@@ -510,7 +512,50 @@ def contains(it, container, item):
 # ---------------------------------------------------------------------------------------------------
 # subscripts
 # ---------------------------------------------------------------------------------------------------
+def _tid(v):
+    if v is None:
+        return None
+    if isinstance(v, Sym):
+        return ("t", z3.simplify(v.term).get_id())
+    if z3.is_expr(v):
+        return ("t", z3.simplify(v).get_id())
+    return ("c", v)
+
+
 def slice_bounds(it, sl, length):
+    """memoised per path: the same slice on the same length yields the same terms"""
+    memo = it.path.__dict__.setdefault("_slice_memo", {})
+    key = (_tid(sl.start), _tid(sl.stop), _tid(sl.step), _tid(length))
+    if key not in memo:
+        memo[key] = _slice_bounds(it, sl, length)
+    return memo[key]
+
+
+def index_map(it, start, stop, step, count, n):
+    """p -> start + p*step for a symbolic positive step, kept behind an uninterpreted function I with the linear
+    facts slice.indices guarantees (instantiate-on-access); the defining equation is recorded as a definition and
+    only handed to the obligations that need it. The same (start, step, count) yields the same function."""
+    from .core import fresh_name
+
+    memo = it.path.__dict__.setdefault("_index_maps", {})
+    key = (z3.simplify(start).get_id(), z3.simplify(step).get_id(), z3.simplify(count).get_id())
+    if key not in memo:
+        I = z3.Function(fresh_name("idx"), z3.IntSort(), z3.IntSort())
+        it.path.add_hyp(z3.Implies(count > 0, I(0) == start))
+        p = z3.Int(fresh_name("p"))
+        it.path.add_hyp(z3.ForAll([p], z3.Implies(z3.And(p >= 0, p + 1 < count), I(p) + step <= I(p + 1)), patterns=[I(p + 1)]))
+        it.path.__dict__.setdefault("index_maps", []).append({"I": I, "start": start, "stop": stop, "step": step, "count": count})
+        memo[key] = I
+    I = memo[key]
+
+    def at(pt):
+        it.path.assume(z3.Implies(z3.And(pt >= 0, pt < count), z3.And(I(pt) >= start, I(pt) < stop, I(pt) >= 0, I(pt) < n)))
+        return I(pt)
+
+    return at
+
+
+def _slice_bounds(it, sl, length):
     """(start, stop, step, count) terms of sl.indices(length) for step > 0 (Python semantics)."""
     step = sl.step
     if step is None:
